@@ -123,6 +123,12 @@ func runC13(rowsFile string, reserved map[string]map[string]bool, b *hc.Builder)
 				return p, p.Interface().(restlicodec.Unmarshaler).UnmarshalRestLi(restlicodec.NewInterfaceReader(b.PlainOf(row.Json)))
 			}},
 		}
+		if tm, ok := typedMap(b.PlainOf(row.Json)); ok {
+			readings = append(readings, reading{"untyped/typed-map", func() (reflect.Value, error) {
+				p := reflect.New(typ)
+				return p, p.Interface().(restlicodec.Unmarshaler).UnmarshalRestLi(restlicodec.NewInterfaceReader(tm))
+			}})
+		}
 		for _, fl := range flavours()[2:] {
 			fl := fl
 			readings = append(readings, reading{fl.name, func() (reflect.Value, error) {
